@@ -70,6 +70,11 @@ class PPInterp(Interp):
         for f in TABLE_LOOKUPS:
             if f not in self.cut and f not in self.models and f not in self.opaque_fns:
                 self.cut[f] = h_table_lookup(f)
+        # a function that turns a path into the key of a file (consults the file system: stat identity, realpath) is a contract cut: its result is
+        # "the key of <argument>", the same value for the same argument on one path
+        for f in file_key_functions(unit):
+            if f not in self.cut and f not in self.models and f not in self.opaque_fns:
+                self.cut[f] = h_file_key(f)
 
     def e_UnaryOperator(self, n, env):
         if n.opcode == '&':
@@ -81,6 +86,50 @@ class PPInterp(Interp):
 
 
 TABLE_LOOKUPS = ('hashmap_get', 'hashmap_get2')
+FILE_IDENTITY_CALLS = ('stat', 'lstat', 'fstat', 'realpath', 'canonicalize_file_name')
+
+
+def file_key_functions(unit):
+    """functions `char *f(char *path)` of the unit whose body asks the file system which file the path denotes (stat / realpath): canonicalisers of file names"""
+    r = getattr(unit, '_c10_file_key_functions', None)
+    if r is None:
+        r = set()
+        for name, fd in unit.functions.items():
+            t = (fd.dtype or fd.type or '').replace(' ', '').replace('const', '')
+            if not t.startswith('char*(char*)'):
+                continue
+            if any(True for _ in fd.calls(set(FILE_IDENTITY_CALLS))):
+                r.add(name)
+        try:
+            unit._c10_file_key_functions = r
+        except AttributeError:
+            pass
+    return r
+
+
+def h_file_key(name):
+    def h(it, ctx, n, args):
+        a = args[0] if args else None
+        if isinstance(a, View):
+            a = it.settle(a)
+        memo = getattr(ctx, 'filekeys', None)
+        if memo is None:
+            memo = ctx.filekeys = {}
+        k = (name, id(a))
+        if k not in memo:
+            o = Obj(None, lazy=False, label='%s(%s)' % (name, getattr(a, 'label', None) or getattr(a, 'name', None) or a))
+            o.meta['filekey'] = (name, a)
+            memo[k] = o
+        ctx.emit('call', name, args, n.line, memo[k], None)
+        return memo[k]
+    return h
+
+
+def key_base(v):
+    """(key function or None, the path value the key was computed from)"""
+    if isinstance(v, Obj) and v.meta.get('filekey') is not None:
+        return v.meta['filekey']
+    return (None, v)
 
 
 def h_table_lookup(name):
